@@ -157,6 +157,29 @@ theorem zero_distance_not_separated (dist : Nat → Dist) (k E a b L : Nat)
   exact zero_distance_same_child (dist L) k _ a b hsym hnn
     (pseudometric_rows (dist L) a b hsym htri hab) hab
 
+/-- **The tree is a function of the current forecasts only**: in any sequence of runs on one
+    object, from any dictionary left behind, the branch dictionary after each run is the one of that
+    run's distance tables, `k`, ensemble size and branching times. -/
+theorem C07_tree_history_free (st : List (List Nat × List Nat)) (runs : List TreeRun) :
+    treeRuns treeStep st runs = runs.map (fun r => treeBranches r.dist r.k r.E r.nb) := by
+  induction runs generalizing st with
+  | nil => rfl
+  | cons r rest ih =>
+    simp only [treeRuns, List.map_cons]
+    rw [ih]
+    rfl
+
+/-- filling the previous run's dictionary in place is not history free: two members that were
+    separated in the first run and coincide in the second keep the first run's deeper branch
+    `(1, 0) ↦ [1]` although branch `(1,)` is empty now (member 1 would get its own controls) -/
+theorem C07_stale_tree_witness :
+    let run1 : TreeRun := ⟨fun _ a b => if a = b then 0 else 1, 2, 2, 2⟩
+    let run2 : TreeRun := ⟨fun _ _ _ => 0, 2, 2, 2⟩
+    ([0, 1], [1]) ∈ treeStepInPlace (treeStep [] run1) run2 ∧
+    ([0, 1], [1]) ∉ treeStep (treeStep [] run1) run2 ∧
+    ([1], []) ∈ treeStep (treeStep [] run1) run2 := by
+  decide +kernel
+
 /-! ## control indices under the tree -/
 
 /-- **Two members share a control entry at a time stamp exactly when they are in the same branch
